@@ -238,9 +238,9 @@ def shard(tier, i, n, seed):
     for idx, sl, T, v in cases(tier):
         if (idx + seed) % n != i:
             continue
-        guarded(R, lambda: check_case(idx, sl, T, v, R), {'slice': sl, 'T': T, 'v': v}, CM.type_features(T), idx)
+        guarded(R, lambda: check_case(idx, sl, T, v, R), {'slice': sl, 'T': T, 'v': v}, CM.type_features(T), idx, cpu_limit=180)
         if sl in ('LEAF', 'OF', 'NEST') and (sl == 'LEAF' or idx % 3 == 0 or tier != 'quick'):
-            guarded(R, lambda: check_open(idx, sl, T, v, R), {'slice': sl, 'T': T, 'v': v, 'open': True}, CM.type_features(T) | {'open'}, idx)
+            guarded(R, lambda: check_open(idx, sl, T, v, R), {'slice': sl, 'T': T, 'v': v, 'open': True}, CM.type_features(T) | {'open'}, idx, cpu_limit=180)
         R.features['slice:' + sl] += 1
         if idx % 499 == seed % 499:
             R.sample({'T': M.show_type(T), 'v': v})
